@@ -1,13 +1,16 @@
 SPECIFICATION Spec
 CONSTANTS
-  Pool <- PoolI
-  Kids <- KidsI
-  TypeOf <- TypeI
-  HashOf <- HashI
+  Pool <- PoolN
+  Kids <- KidsN
+  TypeOf <- TypeN
+  HashOf <- HashN
   MaxEnc = 3
   Aux = TRUE
-  AllowUnregistered = TRUE
+  AllowUnregistered = FALSE
   PinDecoded = FALSE
   SeenByHashOnly = FALSE
   Emitting = TRUE
 CHECK_DEADLOCK FALSE
+INVARIANTS
+  FIFO
+  PosOk
